@@ -253,7 +253,22 @@ func PortText(rng *rand.Rand) string {
 var GoodIPs = []string{"1.1.1.1", "8.8.4.4", "10.0.0.7", "172.16.5.5", "172.31.255.1", "192.168.1.10", "127.0.0.1", "127.9.9.9", "100.64.0.1", "0.1.2.3", "240.1.1.1", "255.255.255.254", "223.255.255.255", "1.1.1.2", "1.1.2.1", "169.253.1.1", "172.32.0.1"}
 var BadIPs = []string{"0.0.0.0", "255.255.255.255", "224.0.0.1", "239.255.255.255", "169.254.1.1"}
 
+// prefixFamilies: addresses whose dotted text is a prefix of another's (an ownership check done on text must not confuse them)
+var prefixFamilies = [][]string{{"1.1.1.1", "1.1.1.10", "1.1.1.12", "1.1.1.100"}, {"10.0.0.7", "10.0.0.70", "10.0.0.77"}, {"8.8.4.4", "8.8.4.41"}, {"172.16.5.5", "172.16.5.50"}}
+
 func PickIPs(rng *rand.Rand, n int, bad bool) []string {
+	if !bad && rng.Intn(5) == 0 {
+		// the first address (the attacker in the adversarial scripts) is a textual prefix of the second (the victim)
+		fam := prefixFamilies[rng.Intn(len(prefixFamilies))]
+		out := append([]string{}, fam...)
+		if rng.Intn(3) == 0 {
+			out[0], out[1] = out[1], out[0]
+		}
+		for len(out) < n {
+			out = append(out, GoodIPs[rng.Intn(len(GoodIPs))])
+		}
+		return out[:max(2, min(n, len(out)))]
+	}
 	perm := rng.Perm(len(GoodIPs))
 	var out []string
 	for i := 0; i < n && i < len(perm); i++ {
